@@ -76,6 +76,8 @@ def expected(tc, M, mp):
 
 
 def observed(ev):
+    if ev["ev"] == "vgap":
+        return dict(asked=ev["asked"], q=ev["q"] if ev["asked"] else None)
     if ev["ev"] == "gap":
         return dict(empty=ev["empty"], g=None if ev["empty"] else ev["g"])
     if not ev["ok"]:
@@ -131,8 +133,18 @@ def near(rng, frm, to):
 def random_cases(rng, n):
     out = []
     for i in range(n):
-        kind = rng.choice(["size", "size", "limit", "limit", "range", "gap"])
+        kind = rng.choice(["size", "size", "limit", "limit", "range", "gap", "vgap"])
         src = dict(model=False)
+        if kind == "vgap":
+            # the gap check as the flows use it: last certificate (settled or in error) against a new range, small numbers
+            pool = [0, 1, 2, 3, 5, 8] + [rng.randrange(0, 40) for _ in range(4)]
+            a = sorted(rng.choice(pool) for _ in range(2))
+            b = sorted(rng.choice(pool) for _ in range(2))
+            mode = rng.choice([1, 2])
+            if mode == 2 and a[0] == 0:
+                a[0], a[1] = 1, max(1, a[1])
+            out.append(dict(k="vgap", typ="fep", src=src, mode=mode, a=[sym(a[0]), sym(a[1])], b=[sym(b[0]), sym(b[1])]))
+            continue
         if kind == "gap":
             pool = [0, 1, 2, MAXU, MAXU - 1] + [rng.randrange(0, 3000) for _ in range(4)] + [MAXU - rng.randrange(0, 3000) for _ in range(4)]
             a = sorted(rng.choice(pool) for _ in range(2))
@@ -193,6 +205,8 @@ def nontrivial(ev):
     """the real code really cut something / really found a gap"""
     if ev["ev"] == "gap":
         return not ev["empty"]
+    if ev["ev"] == "vgap":
+        return ev["asked"]
     if ev["ev"] in ("size", "limit", "range"):
         return ev["ok"] and (ev["rto"] != ev["to"] or ev["rfrom"] != ev["from"])
     return False
